@@ -1,3 +1,4 @@
+import ZCV.Lemmas.CodeEqCfgparser
 import ZCV.Lemmas.Grammar
 import ZCV.Lemmas.Nesting
 /-!
@@ -196,5 +197,79 @@ example :
     (Completable (shapes ["<a>".toList, "k".toList]) ∧ ¬ Nested (shapes ["<a>".toList, "k".toList])) := by
   simp only [completable_iff_mrun, nested_iff_mrun_fst]
   decide
+
+end ZCV.Props.C03
+
+/-!
+# C03, the key/value and directive lines restated for the code as it is now (generated by `harness/zcv/pytrans.py`)
+
+`ZConfigParser`'s methods are not pure (they drive the context and the section objects); what IS pure is the beginning of
+`handle_key_value` and of `handle_directive`: the match against `_keyvalue_rx`, the named groups, the directive tuple, the
+"missing argument" test, the syntax errors at (`self.url`, `self.lineno`).  `Gen.Code.handle_key_value_prefix` /
+`handle_directive_prefix` (`ZCV/Gen/CodeCfgparser.lean`) are the translation of exactly those statements, regenerated from
+the working tree on every run; `ZCV/Lemmas/CodeEqCfgparser.lean` proves them equal to the corresponding pieces of the parser
+model `Cfg.lineShape`.  The `if/elif` chain of `parse`, `start_section` and `end_section` are NOT translated (DESIGN §13).
+-/
+namespace ZCV.Props.C03
+open ZCV ZCV.Cfg ZCV.CodeEq
+
+/-- (i) generated prefix of `handle_key_value` = the model's `kvMatch` (a missing `key` group read as `""`) -/
+theorem C03_code_handle_key_value_eq (url : Option Str) (lineno : Int) (rest : Str) :
+    (Gen.Code.handle_key_value_prefix url lineno () rest).map (fun kv => (kv.1.getD [], kv.2)) =
+      match kvMatch rest with
+      | none => .error (parserError url lineno)
+      | some kv => .ok kv := code_handle_key_value_eq url lineno rest
+
+/-- (i) generated prefix of `handle_directive` = the `%` branch of the model -/
+theorem C03_code_handle_directive_eq (url : Option Str) (lineno : Int) (rest : Str) :
+    (Gen.Code.handle_directive_prefix url lineno () rest).map (fun na => (na.1.getD [], na.2)) =
+      match kvMatch rest with
+      | none => .error (parserError url lineno)
+      | some (name, arg?) =>
+        if !Gen.directives.contains name then .error (parserError url lineno)
+        else if arg?.getD [] == [] then .error (parserError url lineno)
+        else .ok (name, arg?.getD []) := code_handle_directive_eq url lineno rest
+
+/-- (ii) the documented key/value split, for the code: the prefix of `handle_key_value` yields `Grammar.keyValue`, or the
+    parser's syntax error when the line has no such split -/
+theorem C03_code_keyvalue_spec (url : Option Str) (lineno : Int) (rest : Str) (hn : '\n' ∉ rest) :
+    (Gen.Code.handle_key_value_prefix url lineno () rest).map (fun kv => (kv.1.getD [], kv.2)) =
+      match Grammar.keyValue rest with
+      | none => .error (parserError url lineno)
+      | some kv => .ok kv := by
+  rw [code_handle_key_value_eq, C03_keyvalue_rx_spec rest hn]
+  cases Grammar.keyValue rest <;> rfl
+example : '\n' ∉ "key  value x".toList := by decide
+
+/-- (ii) a line that is neither blank, comment, section line nor directive is classified as the prefix of
+    `handle_key_value` says (syntax errors compared as such: the raise-site tag is dropped) -/
+theorem C03_code_keyvalue_lineShape (url : Option Str) (lineno : Int) (c : Char) (t : Str)
+    (h1 : c ≠ '#') (h2 : c ≠ '<') (h3 : c ≠ '%') :
+    forgetTag (lineShape (c :: t)) = kvShape (Gen.Code.handle_key_value_prefix url lineno () (c :: t)) :=
+  code_keyvalue_lineShape url lineno c t h1 h2 h3
+example : ('k' : Char) ≠ '#' ∧ ('k' : Char) ≠ '<' ∧ ('k' : Char) ≠ '%' := by decide
+
+/-- (ii) a `%` line is classified as the prefix of `handle_directive` says -/
+theorem C03_code_directive_lineShape (url : Option Str) (lineno : Int) (rest : Str) :
+    forgetTag (lineShape ('%' :: rest)) = directiveShape (Gen.Code.handle_directive_prefix url lineno () rest) :=
+  code_directive_lineShape url lineno rest
+
+/-- forgetting the raise-site tag does not change the documented classification -/
+theorem C03_code_toSpec_forgetTag (sh : LineShape) : toSpec (forgetTag sh) = toSpec sh := by
+  cases sh <;> rfl
+
+/-- (ii) hence the DOCUMENTED classification of a physical `%` line is the one the generated prefix determines -/
+theorem C03_code_directive_classify (url : Option Str) (lineno : Int) (line rest : Str) (hn : '\n' ∉ line)
+    (hs : strip line = '%' :: rest) :
+    Grammar.classify line = toSpec (directiveShape (Gen.Code.handle_directive_prefix url lineno () rest)) := by
+  rw [← C03_classify_eq_spec line hn, hs, ← code_directive_lineShape url lineno rest, C03_code_toSpec_forgetTag]
+example : strip " %define a b ".toList = '%' :: "define a b".toList := by decide
+
+/-- (ii) …and of a physical key/value line -/
+theorem C03_code_keyvalue_classify (url : Option Str) (lineno : Int) (line : Str) (c : Char) (t : Str) (hn : '\n' ∉ line)
+    (hs : strip line = c :: t) (h1 : c ≠ '#') (h2 : c ≠ '<') (h3 : c ≠ '%') :
+    Grammar.classify line = toSpec (kvShape (Gen.Code.handle_key_value_prefix url lineno () (c :: t))) := by
+  rw [← C03_classify_eq_spec line hn, hs, ← code_keyvalue_lineShape url lineno c t h1 h2 h3, C03_code_toSpec_forgetTag]
+example : strip "  key v ".toList = 'k' :: "ey v".toList := by decide
 
 end ZCV.Props.C03
